@@ -181,7 +181,8 @@ class Remove(AbstractCommand):
         elif self.index < 0:
             # undo inserts at this position: count it from the start
             self.index += len(self._collection)
-        self._collection.pop(self.index)
+        # the element really removed is the one undo gives back
+        self.value = self._collection.pop(self.index)
 
 
 class Move(AbstractCommand):
